@@ -152,6 +152,15 @@ def install(w):
                on_raise={"Exception": ["not is_str(input_value)"], "ValueError": ["not is_str(input_value)"]},
                props={"C16", "C15"})
 
+    # value -> literal for ID: a literal exists for exactly the kinds of value that coerce_id accepts
+    # (a string, or a number that is not a bool); for numbers the same helper decides
+    w.contract(f"{M}.id_value_to_literal", params={"value": "dyn"}, returns="opt:ref:ValueNode",
+               ensures=["(result is None) == (not (is_str(value) or is_int(value) or is_float(value)))"],
+               raises=["GraphQLError", "ValueError"],
+               on_raise={"GraphQLError": ["is_int(value) or is_float(value)"],
+                         "ValueError": ["is_int(value) or is_float(value)"]},
+               props={"C15"})
+
     # ---- output -> input round trip (ghost functions over the contracts above) ---------------------
     G = "theories.ghost_c16"
     for name in ("roundtrip_int", "roundtrip_float", "roundtrip_string", "roundtrip_boolean",
